@@ -170,15 +170,34 @@ func Load(files ...string) (*Onto, error) {
 		}
 		return list(x)
 	}
+	// prefixes are local to a file: a term is compared after mapping its prefix, through the
+	// namespace the file binds it to, onto the conventional prefix of that namespace
+	std := map[string]string{}
+	for p, ns := range map[string]string{"owl": "http://www.w3.org/2002/07/owl#", "rdf": "http://www.w3.org/1999/02/22-rdf-syntax-ns#", "rdfs": "http://www.w3.org/2000/01/rdf-schema#",
+		"xsd": "http://www.w3.org/2001/XMLSchema#", "rfc": "https://tools.ietf.org/html/", "schema": "http://schema.org/"} {
+		std[normURI(ns)] = p
+	}
+	canon := func(v *Vocab, s string) string {
+		if i := strings.Index(s, ":"); i > 0 {
+			if ns, ok := v.prefix[s[:i]]; ok {
+				if p, ok := std[ns]; ok {
+					return p + s[i:]
+				}
+			}
+		}
+		return s
+	}
+	var cur *Vocab
 	hasType := func(m map[string]interface{}, want string) bool {
 		for _, t := range list(m["type"]) {
-			if s, _ := t.(string); s == want {
+			if s, _ := t.(string); canon(cur, s) == want {
 				return true
 			}
 		}
 		return false
 	}
 	for _, r := range raws {
+		cur = r.v
 		for _, m := range r.m {
 			name, _ := m["name"].(string)
 			if hasType(m, "owl:Class") {
@@ -209,6 +228,7 @@ func Load(files ...string) (*Onto, error) {
 				}
 				for _, d := range union(m["range"]) {
 					if s, ok := d.(string); ok {
+						s = canon(r.v, s)
 						p.RangeLits = append(p.RangeLits, s)
 						if s == "rdf:langString" {
 							p.NatLang = true
